@@ -171,6 +171,11 @@ class MetaMolecule(nx.Graph):
         # we need to do some bookkeeping for the resids
         for idx, node in enumerate(new_meta_graph.nodes):
             new_meta_graph.nodes[node]["resid"] = idx
+            # residues that are not (completely) part of the mapping do not
+            # inherit these flags from their atoms; as for any new meta
+            # molecule they are to be built and backmapped by default
+            new_meta_graph.nodes[node].setdefault("build", True)
+            new_meta_graph.nodes[node].setdefault("backmap", True)
             for atom in new_meta_graph.nodes[node]["graph"]:
                 self.molecule.nodes[atom]["resid"] = idx
 
